@@ -120,6 +120,10 @@ def generate(c: Contract) -> Generated:
                     ex.oblige(o.st, "safety", f"unexpected-raise:{o.exc}", z3.BoolVal(False), None,
                               f"path raises {o.exc}, which the contract does not allow")
         g.outcomes = kinds
+        # frame check: everything written must be covered by `modifies` (callers havoc exactly that)
+        if not c.target.startswith("lemma::"):
+            from . import frame as _frame
+            _frame.check(ex, entry, outs, c, entry_env)
         # relational clauses: two executions from the same initial heap
         if c.relational:
             for lab, shared, req_src, ens_src in c.relational:
